@@ -161,7 +161,18 @@ impl<'a> Unifier<'a> {
                         ConstGenericExpr::Literal { val: r_eval, .. },
                         ConstGenericExpr::Literal { val: e_eval, .. },
                     ) => {
-                        assert!(r_eval == e_eval);
+                        if r_eval != e_eval {
+                            let (received, expected) = self.assign_args(received, expected);
+                            handler.emit_err(
+                                TypeError::MismatchedType {
+                                    expected,
+                                    received,
+                                    help_text: self.help_text.clone(),
+                                    span: span.clone(),
+                                }
+                                .into(),
+                            );
+                        }
                     }
                     (
                         ConstGenericExpr::Literal { .. },
